@@ -126,9 +126,11 @@ class Opaque:
 class SSeq:
     """Immutable symbolic sequence (list/tuple/1-D array view) of length `n` (python int or z3 Int term).
     get(k) returns the engine value at index term k (k: python int or z3 Int)."""
-    __slots__ = ("n", "_get", "memo", "kind", "elem_desc", "tag")
+    __slots__ = ("n", "_get", "memo", "kind", "elem_desc", "tag", "elem_tuple", "elem_rowlen")
 
     def __init__(self, n, get: Callable[[Any], Any], kind: str = "list", elem_desc: str = "", tag=None):
+        self.elem_tuple = None      # arity of the elements when they are tuples (declared by the creator, never probed)
+        self.elem_rowlen = None     # length of the elements when they are 1-D arrays (declared by the creator)
         self.n = n
         self._get = get
         self.memo: dict[str, Any] = {}
